@@ -113,8 +113,8 @@ def check_pick(ctx, tag, sig, Sy, freq, sel, DF, Fn, Phi):
             if not m >= 1 - 1e-9:
                 ctx.fail(f"{sig}:{'vector_not_conjugated' if mc >= 1 - 1e-9 else 'not_the_dominant_vector'}",
                          f"{tag}: MAC(Phi, conj(u1)) = {m:.9f} at the returned line (MAC with u1 unconjugated: {mc:.9f})")
-        nrm = np.max(np.abs(Phi[:, j]))
-        ctx.check(abs(nrm - 1) <= 1e-12, f"{sig}:normalisation", lambda: f"{tag}: max|Phi| = {nrm!r}")
+        nrm = float(gen.unit_component_error(Phi[:, j])[0])
+        ctx.check(nrm <= 1e-12, f"{sig}:normalisation", lambda: f"{tag}: largest-magnitude component differs from 1 by {nrm!r}")
         if f - DF < freq[0]:
             ctx.state("band clipped by grid start")
         if f + DF > freq[-1]:
